@@ -16,12 +16,14 @@ func init() {
 	registerProperty(&PropertyInfo{
 		ID:    "C16",
 		Title: "Aggregations are exact over the whole match set",
-		Rules: []string{"C16.R1", "C16.R2", "C16.R3"},
+		Rules: []string{"C16.R1", "C16.R2", "C16.R3", "C16.R4"},
 		Decides: "that every hit and every needed value reaches every calculator: in every collector function that feeds a hit to the top-level bucket, on every path the document values are loaded (whenever fields are needed) before Bucket.Consume, and Consume happens before the paging key, the pruning bound, the top-N store or the match pool are consulted and before any successful return; every hit obtained from the searcher in the collect loop is handed to that function before the next hit is fetched; every Aggregation type that owns nested aggregations includes their Fields() in its own; every Calculator type that owns buckets finishes each of them in its Finish().",
 		NotCovered: "numeric exactness of the individual calculators (sums, sketches, quantiles); the values the sources extract.",
 	})
 	registerRule(&RuleInfo{ID: "C16.R1", Title: "every hit is consumed by the aggregations before paging/pruning", Floor: 3, Run: ruleC16R1,
 		Covers: "path-sensitive typestate of every function calling Bucket.Consume in search/collector and of the collect loop"})
+	registerRule(&RuleInfo{ID: "C16.R4", Title: "every calculator gets its own accumulators", Floor: 5, Run: ruleC16R4,
+		Covers: "sibling cross-check over every Aggregation.Calculator(): accumulator fields of the returned calculator are freshly created, never shared with the aggregation object"})
 	registerRule(&RuleInfo{ID: "C16.R2", Title: "nested aggregations declare their fields", Floor: 3, Run: ruleC16R2,
 		Covers: "sibling cross-check over all implementations of search.Aggregation that own a map of nested aggregations"})
 	registerRule(&RuleInfo{ID: "C16.R3", Title: "nested calculators are finished", Floor: 3, Run: ruleC16R3,
@@ -70,6 +72,28 @@ func ruleC16R1(c *Ctx) {
 		}
 		ex.Outcomes = func(ci ssa.CallInstruction, st *PState) []Outcome {
 			if ci.Common().StaticCallee() == loadDV {
+				if st.Flags&fLoaded != 0 {
+					problems = append(problems, "document values are loaded a second time at "+c.Pos(ci.Pos())+" for the same hit: the doc-value reader is cached per segment reader with the FIRST field list, a later load with other fields yields nothing")
+				}
+				// the field list must contain the aggregations' fields
+				args := ci.Common().Args
+				fl := args[len(args)-1]
+				if f, _ := loadedField(fl); f != nil {
+					okAgg := false
+					for _, g := range c.FuncsIn(pkgCollector) {
+						for _, sto := range storesToField(g, f) {
+							if dependsOn(sto.Val, func(y ssa.Value) bool {
+								c2, ok := y.(*ssa.Call)
+								return ok && c2.Common().StaticCallee() != nil && c2.Common().StaticCallee().Name() == "Fields" && methodRecvNamed(c2.Common().StaticCallee()) != nil && methodRecvNamed(c2.Common().StaticCallee()).Obj().Name() == "Aggregations"
+							}) {
+								okAgg = true
+							}
+						}
+					}
+					if !okAgg {
+						problems = append(problems, "the field list loaded at "+c.Pos(ci.Pos())+" ("+f.Name()+") is never extended with Aggregations.Fields()")
+					}
+				}
 				return []Outcome{{Results: []Tri{TriNo}, Flags: fLoaded}, {Results: []Tri{TriYes}}}
 			}
 			return nil
@@ -291,6 +315,92 @@ func ruleC16R3(c *Ctx) {
 			})
 			c.Check(ok, key, c.Pos(finish.Pos()), "calls Bucket.Finish on the elements of the owned bucket list",
 				"the calculator owns buckets but never finishes them: nested bucket aggregations (terms inside terms/ranges) are neither sorted nor trimmed and their remainder is not computed")
+		}
+	}
+}
+
+// ruleC16R4: a Calculator() must hand out fresh accumulators. An accumulator is a field of the
+// returned calculator that is a pointer to a type of a package outside bluge (sketches, digests),
+// or a map/slice that the calculator's own methods update.
+func ruleC16R4(c *Ctx) {
+	aggIface := c.Iface(pkgSearch, "Aggregation")
+	for _, n := range namedTypesImplementing(c, aggIface) {
+		fn := methodOfNamed(c, n, "Calculator")
+		if fn == nil || len(fn.Params) == 0 {
+			continue
+		}
+		recv := fn.Params[0]
+		var lits []*ssa.Alloc
+		eachInstr(fn, func(in ssa.Instruction) {
+			if r, ok := in.(*ssa.Return); ok && len(r.Results) == 1 {
+				if al, ok := stripIface(r.Results[0]).(*ssa.Alloc); ok {
+					lits = append(lits, al)
+				}
+			}
+		})
+		for _, lit := range lits {
+			kn := namedOf(lit.Type())
+			if kn == nil {
+				continue
+			}
+			kst, ok := kn.Underlying().(*types.Struct)
+			if !ok {
+				continue
+			}
+			// fields updated by the calculator's methods
+			updated := map[*types.Var]bool{}
+			for _, m := range c.SrcFuncs() {
+				if methodRecvNamed(m) != kn {
+					continue
+				}
+				eachInstr(m, func(in ssa.Instruction) {
+					switch x := in.(type) {
+					case *ssa.MapUpdate:
+						if f, _ := loadedField(x.Map); f != nil {
+							updated[f] = true
+						}
+					case *ssa.Store:
+						if ia, ok := x.Addr.(*ssa.IndexAddr); ok {
+							if f, _ := loadedField(ia.X); f != nil {
+								updated[f] = true
+							}
+						}
+					}
+				})
+			}
+			key := fmt.Sprintf("%s.Calculator hands out fresh accumulators", typeShort(n))
+			var problems []string
+			nAcc := 0
+			for i := 0; i < kst.NumFields(); i++ {
+				fv := kst.Field(i)
+				isAcc := updated[fv]
+				if p, ok := fv.Type().Underlying().(*types.Pointer); ok {
+					if en, ok := p.Elem().(*types.Named); ok && en.Obj().Pkg() != nil && !strings.HasPrefix(en.Obj().Pkg().Path(), modPath) {
+						isAcc = true
+					}
+				}
+				if !isAcc {
+					continue
+				}
+				nAcc++
+				for _, sto := range fieldStoresOfLiteral(lit, fv) {
+					if dependsOn(sto.Val, func(y ssa.Value) bool {
+						f, base := loadedField(y)
+						return f != nil && base == ssa.Value(recv)
+					}) && !isFreshLocal(sto.Val) {
+						if _, isCall := sto.Val.(*ssa.Call); isCall {
+							continue // built by a constructor from configuration values
+						}
+						if ext, isExt := sto.Val.(*ssa.Extract); isExt {
+							if _, isCall := ext.Tuple.(*ssa.Call); isCall {
+								continue
+							}
+						}
+						problems = append(problems, "accumulator field "+fv.Name()+" of the calculator is taken from the aggregation object: every calculator made from it (one per bucket, one per search) shares and pollutes the same state")
+					}
+				}
+			}
+			c.Check(len(problems) == 0, key, c.Pos(fn.Pos()), fmt.Sprintf("%d accumulator field(s), each created per calculator", nAcc), uniqJoin(problems))
 		}
 	}
 }
